@@ -219,6 +219,43 @@ class InputFactory:
             return SymInput(sort, fn, ex)
         if sort == 'VisFn':
             return self.make_visfn(hint)
+        if sort in ('BoolArr', 'IntArr'):
+            from .core import zint
+            h, w = I.fresh_int(hint + '_h'), I.fresh_int(hint + '_w')
+            I.assume(z3.And(h >= 0, w >= 0))
+            zs = z3.BoolSort() if sort == 'BoolArr' else z3.IntSort()
+            V = z3.Function(I.fresh_name(hint + '_A'), z3.IntSort(), z3.IntSort(), zs)
+            arr = SArr(h, w, lambda i, j: V(zint(i), zint(j)), 'bool' if sort == 'BoolArr' else 'int')
+            def ex(m):
+                hh, ww = mint(m, h), mint(m, w)
+                if hh * ww > 400:
+                    raise ValueError('model array too large')
+                conv = (lambda v: bool(z3.is_true(v))) if sort == 'BoolArr' else (lambda v: v.as_long())
+                return {sort: [[conv(mval(m, V(i, j))) for j in range(ww)] for i in range(hh)], 'shape': [hh, ww]}
+            return SymInput(sort, arr, ex, sizes=[h, w])
+        if sort == 'NextPosFn':
+            vf = I.load_module('gym_gridverse.envs.visibility_functions')
+            left = I.branch(I.fresh_bool(hint + '_left'))
+            name = '_partially_occluded_next_positions_front_' + ('left' if left else 'right')
+            return SymInput(sort, vf.ns[name], lambda m: {'NextPosFn': name})
+        if sort == 'Rays':
+            from .core import zint
+            nr = I.fresh_int(hint + '_n')
+            I.assume(nr >= 0)
+            LEN = z3.Function(I.fresh_name(hint + '_len'), z3.IntSort(), z3.IntSort())
+            RY = z3.Function(I.fresh_name(hint + '_y'), z3.IntSort(), z3.IntSort(), z3.IntSort())
+            RX = z3.Function(I.fresh_name(hint + '_x'), z3.IntSort(), z3.IntSort(), z3.IntSort())
+            r_ = z3.Int('r!len')
+            I.assume(z3.ForAll([r_], LEN(r_) >= 0, patterns=[LEN(r_)]))
+            P = self.cls('geometry', 'Position')
+            def ray(r):
+                def pos(i):
+                    p = Instance(P, {'y': RY(zint(r), zint(i)), 'x': RX(zint(r), zint(i))})
+                    p.frozen = True
+                    return p
+                return SList(LEN(zint(r)), pos)
+            rays = SList(nr, ray)
+            return SymInput(sort, rays, lambda m: {'unextractable': 'rays come from the real function natively'})
         raise Unsupported(f'input sort {sort}')
 
     def resolve(self, target):
@@ -283,6 +320,8 @@ class InputFactory:
         cells = z3.Function(I.fresh_name(hint + '_cells'), z3.IntSort(), z3.IntSort(), om.sort)
         from .core import zint
         objects = SList(h, lambda i: SList(w, lambda j: SObj(cells(zint(i), zint(j)))))
+        objects.track = True
+        objects.root = objects
         g = I.instantiate(self.cls('grid', 'Grid'), [objects], {})
         def ex(m):
             hh, ww = mint(m, h), mint(m, w)
